@@ -566,7 +566,7 @@ func bufRangeCheck(r *vrt.Result) string {
 	variant := -1
 	pre := false
 	var visited []int
-	var callAt, retAt int64
+	var callAt, retAt, lastFnEnd int64
 	ret := ""
 	putRet := map[int]int64{}
 	putCall := map[int]int64{}
@@ -584,6 +584,8 @@ func bufRangeCheck(r *vrt.Result) string {
 				return fmt.Sprintf("range-index: callback index %d at position %d", e.Int(0), len(visited))
 			}
 			visited = append(visited, e.Int(1))
+		case "range-fn-end":
+			lastFnEnd = e.Seq
 		case "range-ret":
 			retAt = e.Seq
 			ret = e.Str(0) + " " + e.Str(1)
@@ -642,6 +644,18 @@ func bufRangeCheck(r *vrt.Result) string {
 		}
 		if len(visited) < availBefore || len(visited) > putBeforeRet {
 			return fmt.Sprintf("range-extent: visited %v but %d values were put before Range was called and %d before it returned", visited, availBefore, putBeforeRet)
+		}
+		// "visits exactly the values available when it reaches the end of the buffer": the end is
+		// reached once the callback of the last visited value has returned, so a value whose Put had
+		// returned by then was available and must have been visited.
+		availAtEnd := 0
+		for _, n := range []int{1, 2, 3} {
+			if putRet[n] != 0 && len(visited) > 0 && putRet[n] < lastFnEnd {
+				availAtEnd = n
+			}
+		}
+		if len(visited) < availAtEnd {
+			return fmt.Sprintf("range-extent: Range stopped after %v although the Put of value %d had returned before the last callback returned", visited, availAtEnd)
 		}
 		return wantNext(len(visited) + 1)
 	case 1, 2:
